@@ -4,6 +4,7 @@ import (
 	"bytes"
 	"crypto"
 	"crypto/sha256"
+	"encoding/binary"
 	"fmt"
 	"io"
 	"math/rand"
@@ -29,8 +30,10 @@ type pureObjs struct {
 	lists  []*signature.SignatureList
 	owners [][]byte
 	data   [][]byte
-	last   [2][]byte         // owner and data of the last entry of the database's SHA-256 list
-	keep   map[string][]byte // while non-nil: the byte slices returned by the first calls are kept here
+	last   [2][]byte                  // owner and data of the last entry of the database's SHA-256 list
+	raw    []byte                     // the bytes the image was parsed from (nil: signed in place)
+	dbobjs []*signature.SignatureList // the list objects of the database, in order, as the caller put them there
+	keep   map[string][]byte          // while non-nil: the byte slices returned by the first calls are kept here
 }
 
 // held remembers the slice a byte-returning method handed out (first call only, reference phase only)
@@ -43,7 +46,10 @@ func (o *pureObjs) held(m string, b []byte) []byte {
 	return b
 }
 
-var pureMethods = []string{"img.Hash", "img.Bytes", "img.Open", "img.Signatures", "img.Verify0", "img.Verify1",
+// img.Datadir and db.Lists are no calls: the caller reads what the object exposes - the exported directory entry of the
+// parsed image; the length of the database, the identity of the list objects it holds and every field of every list
+// (sigdb.go, goDbStr) - which no read-only method may change. Their reference values are taken BEFORE the first call.
+var pureMethods = []string{"img.Datadir", "db.Lists", "img.Hash", "img.Bytes", "img.Open", "img.Signatures", "img.Verify0", "img.Verify1",
 	"db.Bytes", "db.Marshal", "db.BytesExists0", "db.BytesExists1", "db.BytesExistsX509", "db.BytesExistsLast", "db.SigDataExists", "db.Exists", "upd.Marshal", "upd.Bytes",
 	"auth.Marshal", "auth.Verify0", "auth.Verify1"}
 
@@ -51,6 +57,14 @@ func h8(b []byte) string { s := sha256.Sum256(b); return hx(s[:8]) }
 
 func (o *pureObjs) call(m string) string {
 	switch m {
+	case "img.Datadir":
+		return fmt.Sprintf("%d+%d", o.img.Datadir.VirtualAddress, o.img.Datadir.Size)
+	case "db.Lists":
+		same := len(*o.db) == len(o.dbobjs)
+		for i := 0; same && i < len(o.dbobjs); i++ {
+			same = (*o.db)[i] == o.dbobjs[i]
+		}
+		return fmt.Sprintf("%d lists, the caller's list objects in the caller's order: %v, fields %s", len(*o.db), same, h8([]byte(goDbStr(*o.db))))
 	case "img.Hash":
 		return h8(o.held(m, o.img.Hash(crypto.SHA256)))
 	case "img.Bytes":
@@ -121,8 +135,35 @@ func init() {
 		if _, err := p.Sign(key, cert); err != nil {
 			return "err", "sign"
 		}
-		if a["reparse"] == "1" {
-			p, _ = authenticode.Parse(bytes.NewReader(p.Bytes()))
+		switch a["reparse"] {
+		case "1":
+			o.raw = append([]byte{}, p.Bytes()...)
+			p, _ = authenticode.Parse(bytes.NewReader(o.raw))
+		case "2":
+			// re-parsed from bytes whose certificate table ends WITHOUT the alignment padding behind its last entry
+			// (unpadCertTable). The entry written by Sign must have a length that is no multiple of 8 for that: the
+			// signer is the first of the certificate shapes for which it is.
+			shapes := certShapes(nil)
+			for si := 0; ; si++ {
+				if raw, ok := unpadCertTable(p.Bytes()); ok {
+					o.raw = raw
+					break
+				}
+				if si+1 >= len(shapes) {
+					return "err", "no signer certificate gives a WIN_CERTIFICATE whose length is not a multiple of 8"
+				}
+				cert = makeRSACert(key, shapes[si+1])
+				o.cert[0] = cert.Raw
+				if p, err = authenticode.Parse(bytes.NewReader(unhx(a["img"]))); err != nil {
+					return "err", "parse"
+				}
+				if _, err := p.Sign(key, cert); err != nil {
+					return "err", "sign"
+				}
+			}
+			if p, err = authenticode.Parse(bytes.NewReader(o.raw)); err != nil {
+				return "err", "parse of the signed image without the padding behind its last certificate: " + err.Error()
+			}
 		}
 		o.img = p
 		o.owners = [][]byte{bytes.Repeat([]byte{0x11}, 16), bytes.Repeat([]byte{0x22}, 16)}
@@ -154,24 +195,92 @@ func init() {
 			}
 			db.Append(signature.CERT_X509_GUID, guidFromWire(o.owners[0]), cert.Raw)
 		}
+		// a database may hold a list WITHOUT signatures: one the caller emptied in place through its own pointer to
+		// the list (SignatureList.RemoveBytes / RemoveSignature take the entry out, the database keeps the list), or
+		// a new, still empty list the caller added with AppendList. The lists are put together with AppendList: the
+		// extra list in front of, between or behind the others.
+		if kind := atoi(a["dbempty"]); kind > 0 {
+			typ, d := signature.CERT_SHA256_GUID, make([]byte, 32)
+			switch rng.Intn(3) {
+			case 1:
+				typ, d = signature.CERT_SHA1_GUID, make([]byte, 20)
+			case 2:
+				typ, d = signature.CERT_X509_GUID, append([]byte{}, stranger.Raw...)
+			}
+			if len(d) <= 32 {
+				rng.Read(d)
+			}
+			extra := signature.NewSignatureList(typ)
+			if kind == 1 {
+				if err := extra.AppendBytes(guidFromWire(o.owners[1]), d); err != nil {
+					return "err", "append to the extra list"
+				}
+			}
+			at := []int{0, (len(*db) + 1) / 2, len(*db)}[atoi(a["dbemptypos"])%3]
+			all := signature.NewSignatureDatabase()
+			for i, l := range *db {
+				if i == at {
+					all.AppendList(extra)
+				}
+				all.AppendList(l)
+			}
+			if at >= len(*db) {
+				all.AppendList(extra)
+			}
+			if kind == 1 {
+				if rng.Intn(2) == 0 {
+					err = extra.RemoveBytes(guidFromWire(o.owners[1]), d)
+				} else {
+					err = extra.RemoveSignature(signature.SignatureData{Owner: guidFromWire(o.owners[1]), Data: d})
+				}
+				if err != nil || len(extra.Signatures) != 0 {
+					return "err", "emptying the extra list"
+				}
+			}
+			db = all
+		}
 		o.db = db
+		o.dbobjs = append([]*signature.SignatureList{}, *db...)
 		sl := signature.NewSignatureList(signature.CERT_SHA256_GUID)
 		sl.AppendBytes(guidFromWire(o.owners[0]), o.data[0])
 		o.lists = []*signature.SignatureList{sl}
+		// reference results: the first call of each method on the fresh objects; what the objects expose (img.Datadir,
+		// db.Lists) before any call
+		ref := map[string]string{}
+		var diffs []string
+		// the database's encoders are the first calls ever made on it, each followed by a look at the database; the
+		// signed update is made from it afterwards (SignEFIVariable serialises the value it is given)
+		for _, m := range []string{"db.Lists", "db.Bytes", "db.Lists", "db.Marshal", "db.Lists", "db.Bytes", "db.Marshal"} {
+			got := o.call(m)
+			if want, ok := ref[m]; !ok {
+				ref[m] = got
+			} else if got != want {
+				diffs = append(diffs, fmt.Sprintf("fresh database, after its first encodings %s: %s != first result %s", m, got, want))
+				break
+			}
+		}
+		if ref["db.Bytes"] != ref["db.Marshal"] {
+			diffs = append(diffs, fmt.Sprintf("fresh database: Bytes() returns %s, Marshal() writes %s", ref["db.Bytes"], ref["db.Marshal"]))
+		}
 		_, upd, err := signature.SignEFIVariable(efivar.Db, db, key, cert)
 		if err != nil {
 			return "err", "signvar"
+		}
+		if got := o.call("db.Lists"); got != ref["db.Lists"] {
+			diffs = append(diffs, fmt.Sprintf("after SignEFIVariable serialised the database db.Lists: %s != before %s", got, ref["db.Lists"]))
 		}
 		o.upd = upd
 		if o.auth, err = signature.ReadEFIVariableAuthencation2(bytes.NewReader(upd.Bytes())); err != nil {
 			return "err", "read descriptor"
 		}
-		// reference results: first call of each method on the fresh objects
-		ref := map[string]string{}
-		var diffs []string
 		o.keep = map[string][]byte{}
 		for _, m := range pureMethods {
-			ref[m] = o.call(m)
+			got := o.call(m)
+			if want, ok := ref[m]; !ok {
+				ref[m] = got
+			} else if got != want {
+				diffs = append(diffs, fmt.Sprintf("reference round %s: %s != first result %s", m, got, want))
+			}
 		}
 		kept := o.keep
 		o.keep = nil
@@ -212,6 +321,9 @@ func init() {
 		// same call returns alone on a copy parsed from the same bytes.
 		if nsched := atoi(a["nsched"]); nsched > 0 {
 			signedBytes := append([]byte{}, o.img.Bytes()...)
+			if o.raw != nil {
+				signedBytes = o.raw // the input the image was parsed from
+			}
 			imgMethods := []string{"img.Hash", "img.Bytes", "img.Open", "img.Signatures", "img.Verify0", "img.Verify1"}
 			withImg := func(q *authenticode.PECOFFBinary) *pureObjs { o2 := *o; o2.img, o2.keep = q, nil; return &o2 }
 			alone := map[string]string{}
@@ -364,6 +476,19 @@ func init() {
 				diffs = append(diffs, fmt.Sprintf("held %s: the slice returned by the first call now reads %s, it was %s", m, h8(b), ref[m]))
 			}
 		}
+		// two parses of the same input serialise identically, whatever read-only calls one of them has answered
+		if o.raw != nil {
+			if q, err := authenticode.Parse(bytes.NewReader(o.raw)); err != nil {
+				diffs = append(diffs, "the input of the image does not parse a second time: "+err.Error())
+			} else {
+				if got := h8(q.Bytes()); got != h8(o.img.Bytes()) || got != ref["img.Bytes"] {
+					diffs = append(diffs, fmt.Sprintf("second parse: Bytes() of a fresh parse of the same input is %s; of the image that answered the read-only calls it is %s now and was %s at first", got, h8(o.img.Bytes()), ref["img.Bytes"]))
+				}
+				if q.Datadir != o.img.Datadir {
+					diffs = append(diffs, fmt.Sprintf("second parse: Datadir of a fresh parse of the same input is %+v; of the image that answered the read-only calls %+v", q.Datadir, o.img.Datadir))
+				}
+			}
+		}
 		refs := []string{}
 		for _, m := range pureMethods {
 			refs = append(refs, m+"="+ref[m])
@@ -373,6 +498,51 @@ func init() {
 		}
 		return "ok", "same " + strings.Join(refs, ",")
 	}
+}
+
+// unpadCertTable returns a copy of a PE image whose attribute certificate table is the 8-aligned tail of the file, with
+// the zero padding behind the LAST WIN_CERTIFICATE cut off and the Size of the directory entry lowered accordingly (the
+// table still starts on an 8-byte boundary and still ends with the file; signing tools differ in whether they pad the
+// last entry). ok is false when there is nothing to cut (no table, or the last entry's length is a multiple of 8).
+// The header fields are located by their offsets in the PE format, not through the library.
+func unpadCertTable(img []byte) (out []byte, ok bool) {
+	le := binary.LittleEndian
+	if len(img) < 0x40 {
+		return nil, false
+	}
+	opt := int(le.Uint32(img[0x3c:])) + 24
+	if opt+2 > len(img) {
+		return nil, false
+	}
+	dd := opt + 96 + 32
+	if le.Uint16(img[opt:]) == 0x20b {
+		dd = opt + 112 + 32
+	}
+	if dd+8 > len(img) {
+		return nil, false
+	}
+	va, size := int(le.Uint32(img[dd:])), int(le.Uint32(img[dd+4:]))
+	if size == 0 || va%8 != 0 || va+size != len(img) {
+		return nil, false
+	}
+	for off := va; off+8 <= va+size; {
+		n := int(le.Uint32(img[off:]))
+		next := off + (n+7)&^7
+		if n < 8 || next > va+size {
+			return nil, false
+		}
+		if next == va+size { // the last entry
+			pad := next - (off + n)
+			if pad == 0 {
+				return nil, false
+			}
+			out = append([]byte{}, img[:len(img)-pad]...)
+			le.PutUint32(out[dd+4:], uint32(size-pad))
+			return out, true
+		}
+		off = next
+	}
+	return nil, false
 }
 
 // the worker for C19 is the race-detector build of this binary
@@ -389,9 +559,17 @@ func c19Worker(c *Ctx) *Worker {
 	return w
 }
 
+// while non-nil: the worker process on which c19Gen runs a group of small cases one after the other (a worker that dies -
+// the race detector halts it at the first report - is replaced by a fresh process by Worker.Do, so a case never meets
+// the remains of an earlier one; a -race process takes about a second to start and exit, as long as ten small cases)
+var c19Shared *Worker
+
 func c19Eval(c *Ctx, cs Case) {
-	w := c19Worker(c)
-	defer w.Close()
+	w := c19Shared
+	if w == nil {
+		w = c19Worker(c)
+		defer w.Close()
+	}
 	var img []byte
 	if cs.S("path") != "" {
 		img, _ = os.ReadFile(filepath.Join(c.RepoDir, cs.S("path")))
@@ -401,8 +579,11 @@ func c19Eval(c *Ctx, cs Case) {
 		img = buildPE(s).img
 	}
 	res := w.Do("pure.run", map[string]string{"verif": c.VerifDir, "img": hx(img), "seed": fmt.Sprint(cs.I("seed2")), "nseq": fmt.Sprint(cs.I("nseq")),
-		"goroutines": fmt.Sprint(cs.I("goroutines")), "ncalls": fmt.Sprint(cs.I("ncalls")), "reparse": fmt.Sprint(cs.I("reparse")), "decoded": fmt.Sprint(cs.I("decoded")), "dbentries": fmt.Sprint(cs.I("dbentries")), "nsched": fmt.Sprint(cs.I("nsched")), "own": fmt.Sprint(cs.I("own"))}, 120*time.Second)
-	c.Count(cs.Key(), true, fmt.Sprintf("pure/g%d/db%d/%s", cs.I("goroutines"), 2+cs.I("dbentries"), res.Class))
+		"goroutines": fmt.Sprint(cs.I("goroutines")), "ncalls": fmt.Sprint(cs.I("ncalls")), "reparse": fmt.Sprint(cs.I("reparse")), "decoded": fmt.Sprint(cs.I("decoded")), "dbentries": fmt.Sprint(cs.I("dbentries")), "nsched": fmt.Sprint(cs.I("nsched")), "own": fmt.Sprint(cs.I("own")),
+		"dbempty": fmt.Sprint(cs.I("dbempty")), "dbemptypos": fmt.Sprint(cs.I("dbemptypos"))}, 120*time.Second)
+	c.Count(cs.Key(), true, fmt.Sprintf("pure/g%d/db%d/img=%s/emptylist=%s/%s", cs.I("goroutines"), 2+cs.I("dbentries"),
+		[]string{"signed-in-place", "reparsed", "reparsed-last-certificate-unpadded"}[cs.I("reparse")%3],
+		[]string{"none", "emptied-in-place", "appended-empty"}[cs.I("dbempty")%3]+[]string{"", "/front", "/middle", "/end"}[min(cs.I("dbempty"), 1)*(1+cs.I("dbemptypos")%3)], res.Class))
 	c.Sample(Case{"goroutines": cs.I("goroutines"), "ncalls": cs.I("ncalls"), "nseq": cs.I("nseq"), "result": clip(res.Out)})
 	fail := func(what string) {
 		c.Fail(Failure{Kind: "property", What: what, Case: cs, Go: clip(res.Class + " " + res.Out + " " + w.stderr.String())})
@@ -423,6 +604,7 @@ func c19Eval(c *Ctx, cs Case) {
 }
 
 func c19Gen(c *Ctx) {
+	ncalls := int64(map[bool]int{false: 25, true: 100}[c.Thorough])
 	for i := 0; i < c.N(6, 200) && c.NFailures() < 4; i++ {
 		s := genPeSpec(c, i%5 == 4)
 		cs := specCase(s)
@@ -430,20 +612,32 @@ func c19Gen(c *Ctx) {
 		cs["seed2"] = int64(c.Rng.Intn(1 << 30))
 		cs["nseq"] = int64(40)
 		cs["goroutines"] = int64([]int{2, 4, 8, 16}[i%4])
-		cs["ncalls"] = int64(map[bool]int{false: 25, true: 100}[c.Thorough])
-		cs["reparse"] = int64(i % 2)
+		cs["ncalls"] = ncalls
+		cs["reparse"] = int64(i % 3) // signed in place; re-parsed from its bytes; re-parsed from bytes whose last certificate is not padded
 		cs["decoded"] = int64((i / 2) % 2)
 		cs["dbentries"] = int64([]int{0, 62, 300, 63, 1000, 126}[i%6]) // SHA-256 list of 2, 64, 302, 65, 1002, 128 entries
 		cs["nsched"] = int64(c.P(120, 120))                            // scheduled rounds on freshly parsed copies: 36 pairs x 3 kinds + 12 triples
 		cs["own"] = int64(1)
+		cs["dbempty"] = int64((i + 1) % 3)        // a list without signatures: emptied in place; appended empty; none
+		cs["dbemptypos"] = int64((2*i + i/3) % 3) // in front of, between, behind the other lists
 		c19Eval(c, cs)
 	}
-	c19Eval(c, Case{"op": "pure", "path": "authenticode/testdata/test.pecoff", "seed2": int64(7), "nseq": int64(40), "goroutines": int64(8), "ncalls": int64(map[bool]int{false: 25, true: 100}[c.Thorough]), "reparse": int64(0), "decoded": int64(1), "dbentries": int64(198), "nsched": int64(120), "own": int64(1)})
+	c19Eval(c, Case{"op": "pure", "path": "authenticode/testdata/test.pecoff", "seed2": int64(7), "nseq": int64(40), "goroutines": int64(8), "ncalls": ncalls, "reparse": int64(0), "decoded": int64(1), "dbentries": int64(198), "nsched": int64(120), "own": int64(1)})
+	// the repository binary once more, re-parsed from bytes whose last certificate is not padded, with the shorter
+	// schedule sweep; and small runs (no scheduled rounds) over the product of: kind of the list without signatures x
+	// its position x how the other lists came about, the image alternating between the two re-parsed forms
+	c19Shared = c19Worker(c)
+	defer func() { c19Shared.Close(); c19Shared = nil }()
+	c19Eval(c, Case{"op": "pure", "path": "authenticode/testdata/test.pecoff", "seed2": int64(11), "nseq": int64(40), "goroutines": int64(4), "ncalls": ncalls, "reparse": int64(2), "decoded": int64(0), "dbentries": int64(5), "nsched": int64(c.P(40, 120)), "own": int64(1), "dbempty": int64(1), "dbemptypos": int64(1)})
+	for k := 0; k < c.N(12, 48) && c.NFailures() < 4; k++ {
+		c19Eval(c, Case{"op": "pure", "path": "authenticode/testdata/test.pecoff", "seed2": int64(100 + k), "nseq": int64(40), "goroutines": int64(2 + k%3), "ncalls": ncalls, "reparse": int64(1 + (k/3)%2), "decoded": int64((k/6 + k) % 2), "dbentries": int64([]int{0, 1, 7, 30}[k%4]),
+			"nsched": int64(0), "own": int64(k % 2), "dbempty": int64(1 + k%2), "dbemptypos": int64((k / 2) % 3)})
+	}
 }
 
 func init() {
 	register("C19", &PropDef{
-		Rule:   "for each of several signed images (generated layouts and a repository binary; parsed-and-signed in place or re-parsed from bytes), a database (built through Append, or decoded from an independently encoded stream; its SHA-256 list holds 2, 64, 65, 128, 200, 302 or 1002 hashes in no particular order, followed by a certificate list) and a signed-update value: the 19 read-only methods (image: Hash, Bytes, Open, Signatures, Verify x2; database: Bytes, Marshal - both BEFORE any query -, BytesExists x4 incl. a type whose list is not the first and the last entry of the long list, SigDataExists, Exists; signed update: Marshal, Bytes; its decoded descriptor: Marshal, Verify x2) are called once for reference, then 40 times sequentially in random order, then from 2/4/8/16 goroutines (25..100 random calls each) on the SAME objects; then, on FRESHLY parsed copies of the signed image (one copy per round, so that the overlapping calls are the first ever made on the object), every ordered pair of the six image methods and 12 random triples are run by two / three goroutines under a deterministic interleaving: the copy is parsed through a caller-supplied io.ReaderAt that makes the goroutines take turns at read granularity (sched.go) - a hand-over at every read; the first call held inside its first read until the second has returned; random turns of 0..3 reads - and every call, and every method once more after the round, must return what the call returns alone on a copy parsed from the same bytes (120 rounds per image); then the caller treats what it was handed as its own: it overwrites the slices returned by Hash, Bytes (image, database, signed update) and the certificate data of the entries listed by Signatures, and for each Marshal (signed update, database, descriptor) it marshals into an empty buffer, resets that buffer and reuses it for other data, marshals behind 3 bytes already in the destination, marshals into two buffers and lets each owner append 8 bytes of its own, and overwrites those destinations in place - after each of which the methods of the object must answer as at first, each destination must hold exactly (its old content,) the first encoding (and its owner's trailer); then every method once more; every result must equal the first, and the byte slices returned by the first Hash / Bytes / Marshal calls, held throughout, must still read the same at the end. The worker is the -race build, so any data race aborts the run. Every case is non-trivial; distinct = distinct (image, schedule seed, goroutine count).",
+		Rule:   "for each of several signed images (generated layouts and a repository binary; parsed-and-signed in place, re-parsed from its bytes, or re-parsed from bytes whose certificate table ends WITHOUT the alignment padding behind its last WIN_CERTIFICATE - the padding cut off and the directory Size lowered, the signer chosen so that the entry's length is no multiple of 8; the table still is the 8-aligned tail of the file), a database (built through Append, or decoded from an independently encoded stream; its SHA-256 list holds 2..1002 hashes in no particular order, followed by a certificate list; in two of three cases it also holds a list WITHOUT signatures - a SHA-256, SHA-1 or X.509 list the caller emptied in place through its own pointer with SignatureList.RemoveBytes / RemoveSignature, or a new empty list added with AppendList - in front of, between or behind the other lists) and a signed-update value: before any call the caller notes what the objects expose (img.Datadir; db.Lists = the length of the database, the identity and order of the list objects it holds, every field of every list); the database's Bytes and Marshal are the first calls ever made on it (Bytes, Marshal, Bytes, Marshal, a look at db.Lists after each; both must write the same bytes) and SignEFIVariable, which serialises the database it is given, must leave db.Lists as it was; then the 19 read-only methods (image: Hash, Bytes, Open, Signatures, Verify x2; database: Bytes, Marshal, BytesExists x4 incl. a type whose list is not the first and the last entry of the long list, SigDataExists, Exists; signed update: Marshal, Bytes; its decoded descriptor: Marshal, Verify x2) and the two observations img.Datadir and db.Lists are taken once for reference, then 40 times sequentially in random order, then from 2/4/8/16 goroutines (25..100 random calls each) on the SAME objects; then, on FRESHLY parsed copies of the signed image (one copy per round, parsed from the input the image was parsed from, so that the overlapping calls are the first ever made on the object), each method as the first and only call on a copy of its own must agree with one copy asked for everything in turn, and every ordered pair of the six image methods and 12 random triples are run by two / three goroutines under a deterministic interleaving: the copy is parsed through a caller-supplied io.ReaderAt that makes the goroutines take turns at read granularity (sched.go) - a hand-over at every read; the first call held inside its first read until the second has returned; random turns of 0..3 reads - and every call, and every method once more after the round, must return what the call returns alone on a copy parsed from the same bytes (120 rounds per image); then the caller treats what it was handed as its own: it overwrites the slices returned by Hash, Bytes (image, database, signed update) and the certificate data of the entries listed by Signatures, and for each Marshal (signed update, database, descriptor) it marshals into an empty buffer, resets that buffer and reuses it for other data, marshals behind 3 bytes already in the destination, marshals into two buffers and lets each owner append 8 bytes of its own, and overwrites those destinations in place - after each of which the methods of the object must answer as at first, each destination must hold exactly (its old content,) the first encoding (and its owner's trailer); then every method and observation once more; every result must equal the first, the byte slices returned by the first Hash / Bytes / Marshal calls, held throughout, must still read the same at the end, and a second parse of the input of a re-parsed image, only ever serialised, must give the same Bytes() and Datadir as the image that answered all the calls. Besides the 6 generated images and the repository binary with the full sweep: the repository binary re-parsed without the last padding (40 scheduled rounds) and 12 small runs (no scheduled rounds; 2..4 goroutines) over the product kind of list without signatures x its position x how the other lists came about, the image alternating between the two re-parsed forms; these 13 share one worker process. The worker is the -race build, so any data race aborts the run. Every case is non-trivial; distinct = distinct (image, schedule seed, goroutine count).",
 		Assume: []string{"data-race freedom under the Go memory model is a runtime fact: the race detector observes the schedules that happen to occur in the sampled runs"},
 		Eval:   c19Eval, Gen: c19Gen,
 	})
